@@ -85,8 +85,9 @@ type Session struct {
 	LastActivity  time.Time
 
 	// RADIUS
-	SessionID string
-	Class     []byte
+	SessionID   string
+	Class       []byte
+	AcctStarted bool // an Accounting-Start was issued for the session; set by whoever issues it
 
 	mu sync.RWMutex
 }
